@@ -150,9 +150,94 @@ fn gen_limb_apart(out: &mut Out) {
   }
 }
 
+/// The dealt shares through the iterator adaptors (`nth`, `skip`, `step_by`) instead of plain stepping: the share that
+/// comes out is the one at the position counted from the start, never x = 0, never a point twice.
+fn gen_adaptors(out: &mut Out) {
+  let secret = le24(0, 0xfeed_beef);
+  let t = 3u32;
+  let mut ws: Vec<u64> = vec![];
+  for i in 0..2u64 {
+    ws.extend([9 + i, 0, 0]);
+  }
+  for _ in 0..8 {
+    ws.extend([1u64, 0, 0]);
+  }
+  let case = format!("sharks.deal {} {} {} {}", t, hex(&secret), 12, words_hex(&ws));
+  // reference: twelve shares by plain stepping (this is what the case line asks the model for)
+  let plain = guarded(|| {
+    let mut rng = ScriptRng::new(ws.clone());
+    let mut ev = Sharks(t).dealer_rng(&secret, &mut rng).ok()?;
+    let its: Vec<Share> = (&mut ev).take(12).collect();
+    let g = ev.gen(&mut rng);
+    Some((its, g))
+  });
+  let (its, gshare) = match plain {
+    Some(Some(x)) => x,
+    _ => {
+      out.case(case, "err".into(), Err("dealer refused an in-range secret".into()));
+      return;
+    }
+  };
+  let enc: Vec<Vec<u8>> = its.iter().map(|s| Vec::from(s)).collect();
+  let mut v = Ok(());
+  let via = |f: &dyn Fn(&mut dyn Iterator<Item = Share>) -> Vec<Share>| -> Option<Vec<Vec<u8>>> {
+    guarded(|| {
+      let mut rng = ScriptRng::new(ws.clone());
+      let mut ev = Sharks(t).dealer_rng(&secret, &mut rng).ok()?;
+      Some(f(&mut ev).iter().map(|s| Vec::from(s)).collect::<Vec<_>>())
+    })
+    .flatten()
+  };
+  let checks: Vec<(&str, Option<Vec<Vec<u8>>>, Vec<usize>)> = vec![
+    ("nth(0)", via(&|ev| ev.nth(0).into_iter().collect()), vec![0]),
+    ("nth(4)", via(&|ev| ev.nth(4).into_iter().collect()), vec![4]),
+    ("next, next, nth(0), nth(2)", via(&|ev| { let mut o = vec![]; o.extend(ev.next()); o.extend(ev.next()); o.extend(ev.nth(0)); o.extend(ev.nth(2)); o }), vec![0, 1, 2, 5]),
+    ("skip(5).take(3)", via(&|ev| ev.skip(5).take(3).collect()), vec![5, 6, 7]),
+    ("step_by(3).take(4)", via(&|ev| ev.step_by(3).take(4).collect()), vec![0, 3, 6, 9]),
+  ];
+  for (what, got, want) in checks {
+    let wanted: Vec<Vec<u8>> = want.iter().map(|&i| enc[i].clone()).collect();
+    if got.as_ref() != Some(&wanted) {
+      let xs: Vec<String> = got.unwrap_or_default().iter().map(|b| hex(&b[..3])).collect();
+      v = Err(format!("dealt shares taken with {} are not the shares at positions {:?} (points start {:?})", what, want, xs));
+    }
+  }
+  out.case(case, format!("ok {} gen={}", enc.iter().map(|b| hex(b)).collect::<Vec<_>>().join(","), hex(&Vec::from(&gshare))), v);
+}
+
+/// secrets with an element that is not below the modulus, at every position among in-range elements: always refused
+pub fn gen_bad_chunks(out: &mut Out) {
+  let good = [le24(0, 7), le24(0, u128::MAX), le24(1, 12450)];
+  let bads = [le24(1, 12451), le24(1, 12452), le24(2, 0), { let mut b = le24(0, 5); b[23] = 1; b }, vec![0xff; 24]];
+  for k in 1..=3usize {
+    for pos in 0..k {
+      for (bi, bad) in bads.iter().enumerate() {
+        if (pos + bi + k) % 2 == 1 && k == 3 {
+          continue;
+        }
+        let mut secret = vec![];
+        for i in 0..k {
+          secret.extend(if i == pos { bad.clone() } else { good[i % 3].clone() });
+        }
+        let ws: Vec<u64> = (0..60).flat_map(|i| [3 + i as u64, 0, 0]).collect();
+        let mut rng = ScriptRng::new(ws.clone());
+        let obs = match guarded(|| Sharks(2).dealer_rng(&secret, &mut rng).map(|mut ev| (&mut ev).take(2).map(|s| Vec::from(&s)).collect::<Vec<_>>())) {
+          Some(Ok(sh)) => format!("ok {} gen=-", sh.iter().map(|b| hex(b)).collect::<Vec<_>>().join(",")),
+          Some(Err(_)) => "err".to_string(),
+          None => "panic".to_string(),
+        };
+        let v = if obs == "err" { Ok(()) } else { Err(format!("a secret of {} elements whose element {} is not below the modulus was dealt", k, pos)) };
+        out.case(format!("sharks.deal 2 {} 2 {}", hex(&secret), words_hex(&ws)), obs, v);
+      }
+    }
+  }
+}
+
 pub fn gen(seed: u64, thorough: bool, only: Option<u64>, out: &mut Out) {
   if only.is_none() {
     gen_limb_apart(out);
+    gen_adaptors(out);
+    gen_bad_chunks(out);
   }
   let groups: u64 = if thorough { 500 } else { 60 };
   let lat = lattice();
